@@ -63,6 +63,19 @@ def tests_of_calls(f, calls, family=None, enum_success=None, awaited=None):
     return tests
 
 
+def private_fields(F, rep, adt_path, why):
+    """Type-level fact (replaces a compile-fail witness): no field of the ADT is nameable
+    outside its defining crate, so code outside cannot build or alter a value by literal /
+    field assignment and the enumerated constructors are the only ones."""
+    adt = F.adt(adt_path)
+    if adt is None:
+        rep.missing("type", "ADT %s not found" % adt_path)
+        return
+    vis = {"%s.%s" % (v["name"], f["name"]): f["vis"] for v in adt["variants"] for f in v["fields"]}
+    bad = sorted(k for k, v in vis.items() if v == "pub")
+    rep.ob("type", not bad, adt_path, "no public field (%s): %s" % (why, bad or "all restricted"), "%s|private-fields" % adt_path)
+
+
 def skey(F, f, what):
     """Line-number-free site key."""
     return "%s|%s" % (source_fn(F, f), what)
